@@ -650,8 +650,19 @@ func ruleDeprecationKeptWhole(id string) func(*Checker) {
 					if !onField {
 						continue
 					}
-					if guarded(mu.Block(), []Edge{{b, 0}}) || guarded(mu.Block(), []Edge{{b, 1}}) {
-						bad = p.Pos(ifi.Cond.Pos())
+					// where the note is made: the store itself, or the edge of the phi that carries a note
+					places := []*ssa.BasicBlock{mu.Block()}
+					if ph, ok := mu.Value.(*ssa.Phi); ok {
+						for i, e := range ph.Edges {
+							if !isNilConst(e) {
+								places = append(places, ph.Block().Preds[i])
+							}
+						}
+					}
+					for _, pl := range places {
+						if guarded(pl, []Edge{{b, 0}}) || guarded(pl, []Edge{{b, 1}}) {
+							bad = p.Pos(ifi.Cond.Pos())
+						}
 					}
 				}
 				c.check(bad == "", id, p.FuncName(fn), "note recorded whenever there is one", p.Pos(mu.Pos()), "conditioned on the note's presence only", "the note is recorded only if a test of one of its fields at "+bad+" turns out one way: a note that does not satisfy it (empty reason, link only) is dropped, and the bundle says the version is not deprecated")
